@@ -6,6 +6,7 @@ import TcVerif.Driver.Store
 import TcVerif.Driver.TaskFam
 import TcVerif.Driver.JudgeTask
 import TcVerif.Driver.Seal
+import TcVerif.Driver.Backend
 
 open Tc.Driver
 
@@ -160,6 +161,28 @@ partial def loopJudgeRep (h : IO.FS.Stream) (out : IO.FS.Stream) (j : RJ) : IO U
   for o in outs do out.putStrLn o
   loopJudgeRep h out j'
 
+partial def loopBackend (h : IO.FS.Stream) (out : IO.FS.Stream) (st : BState) : IO Unit := do
+  let line ← h.getLine
+  if line.isEmpty then return ()
+  if line.startsWith "#" then
+    out.putStrLn line.trimAscii.toString
+    loopBackend h out (if line.startsWith "# case" then {} else st)
+  else
+    out.putStrLn ("> " ++ line.trimAscii.toString)
+    let (st', outs) := backendLine st line
+    for o in outs do
+      out.putStrLn o
+    loopBackend h out st'
+
+partial def loopJudgeBackend (h : IO.FS.Stream) (out : IO.FS.Stream) (j : BJ) : IO Unit := do
+  let line ← h.getLine
+  if line.isEmpty then
+    for o in bjFlush j do out.putStrLn o
+    return ()
+  let (j', outs) := bjLine j (line.dropEndWhile (· == '\n')).toString
+  for o in outs do out.putStrLn o
+  loopJudgeBackend h out j'
+
 def main (args : List String) : IO UInt32 := do
   let stdin ← IO.getStdin
   let stdout ← IO.getStdout
@@ -173,6 +196,8 @@ def main (args : List String) : IO UInt32 := do
   | ["model", "seal"] => loopSeal stdin stdout {} true; return 0
   | ["sealgen"] => loopSeal stdin stdout {} false; return 0
   | ["judge", "seal"] => loopJudgeSeal stdin stdout "" "" []; return 0
+  | ["model", "backend"] => loopBackend stdin stdout {}; return 0
+  | ["judge", "backend"] => loopJudgeBackend stdin stdout {}; return 0
   | ["judge", "task"] => loopJudgeTask stdin stdout {}; return 0
   | ["judge", "store"] => loopJudgeStore stdin stdout "" #[] []; return 0
   | _ =>
